@@ -1,3 +1,91 @@
-import GoStd.Bytes
+/-
+C08 — No network input can crash, wedge or balloon the proxy.
+
+"No sequence of bytes delivered to a UDP or TCP listener - well-formed, malformed, truncated,
+oversized or adversarial - makes the proxy panic, exit, stall its message loop or allocate memory
+out of proportion to the bytes actually received. Undecodable input is discarded (a TCP connection
+carrying it is closed) and the proxy keeps serving the traffic that follows."
+
+Model: Sip.parseMessage, Reader.Frame (connLoop, udpParse). What is proved here is the
+"out of proportion" half at the parser: whatever the input, a successfully decoded message holds
+no more than the input gave (body, header count, and unconsumed rest are all accounted for inside
+the input length), and the TCP loop extracts at most one message per two input bytes.
+
+No panic / no stall: every model function (`readLine`, `parseHeaderLines`, `parseMessage`,
+`connLoopAux`, `trimSpace`, `fields`, …) is a total Lean function accepted by the termination
+checker — structural recursion on the input or on explicit fuel bounded by the input length — and
+reports failure as `none` / `.error`, never by a partial operation. That totality IS the model's
+no-crash/no-hang statement; there is deliberately no theorem for it. That the Go code behaves like
+the total model on hostile input is the business of the differential stream (C08 hostile-input
+corpus), not of this file.
+-/
+import Reader.Frame
+import Lemmas.Message
+import Lemmas.Frame
+open GoStd Sip Reader Lemmas
+
 namespace Props.C08
+
+/-- Body and unconsumed rest are disjoint parts of the input: a declared Content-Length can never
+make the parser hold (or wait for) more body than the bytes actually received. For EVERY input. -/
+theorem C08_body_bounded (cm : List (Bytes × Bytes)) (input : Bytes) (m : Message) (rest : Bytes)
+    (h : parseMessage cm input = .ok m rest) : m.body.length + rest.length ≤ input.length := by
+  have := parseMessage_size cm input m rest h
+  omega
+
+/-- The number of headers is bounded by the input length (each header line consumes at least one
+byte; in fact by `input.length - 2`: start line and blank line cost a byte each). -/
+theorem C08_headers_bounded (cm : List (Bytes × Bytes)) (input : Bytes) (m : Message) (rest : Bytes)
+    (h : parseMessage cm input = .ok m rest) : m.headers.length ≤ input.length := by
+  have := parseMessage_size cm input m rest h
+  omega
+
+/-- all of it at once -/
+theorem C08_message_bounded (cm : List (Bytes × Bytes)) (input : Bytes) (m : Message) (rest : Bytes)
+    (h : parseMessage cm input = .ok m rest) :
+    m.headers.length + m.body.length + rest.length + 2 ≤ input.length :=
+  parseMessage_size cm input m rest h
+
+/-- a successful parse always consumes input: the TCP loop makes progress on every message (so the
+no-progress branch of `connLoopAux` is dead code, `Lemmas.connLoopAux_succ`) -/
+theorem C08_progress (cm : List (Bytes × Bytes)) (input : Bytes) (m : Message) (rest : Bytes)
+    (h : parseMessage cm input = .ok m rest) : rest.length < input.length :=
+  parseMessage_progress cm input m rest h
+
+/-- The TCP loop never produces more messages than half the bytes of the stream, and the headers
+and bodies it holds together never exceed the stream: total memory is proportional to what was
+received. For EVERY stream. -/
+theorem C08_stream_bounded (cm : List (Bytes × Bytes)) (stream : Bytes) :
+    2 * (connLoop cm stream).length
+      + ((connLoop cm stream).map (fun m => m.headers.length + m.body.length)).sum ≤ stream.length :=
+  connLoopAux_bounded cm _ stream
+
+/-- Undecodable input ends the connection loop (the connection is closed): nothing is emitted for
+it and nothing behind it is interpreted. -/
+theorem C08_undecodable_closes (cm : List (Bytes × Bytes)) (s : Bytes)
+    (h : parseMessage cm s = .error) : connLoop cm s = [] :=
+  connLoop_error cm s h
+
+/-- … while every decodable message is served and the loop goes on with the traffic that follows,
+whatever it is. -/
+theorem C08_keeps_serving (cm : List (Bytes × Bytes)) (s : Bytes) (m : Message) (rest : Bytes)
+    (h : parseMessage cm s = .ok m rest) : connLoop cm s = m :: connLoop cm rest :=
+  connLoop_ok cm s m rest h
+
+-- UDP: `udpParse` is a pure function of one datagram (no state is threaded from one datagram to
+-- the next in the model), so a discarded datagram cannot affect the decoding of any other; the
+-- buffer-recycling side of that is C10 (`C10_local`, `C10_pool_exclusive`).
+
+/-! ### non-vacuity: a successful parse exists (any compact table), and the bound is met by it -/
+
+example (cm : List (Bytes × Bytes)) :
+    ∃ input m rest, parseMessage cm input = .ok m rest ∧ m.body.length = 2 ∧ rest.length = 3 ∧
+      m.headers.length = 1 :=
+  ⟨_, _, _, parse_render_ws cm [13, 10] _ _ _ _ (Or.inl rfl) (wf_example_status cm) [] [1, 2, 3]
+    (by simp), rfl, rfl, rfl⟩
+
+/-- … and an undecodable one: a stream of keep-alives only -/
+example (cm : List (Bytes × Bytes)) : connLoop cm (keepAlives 3) = [] :=
+  C08_undecodable_closes cm _ (parseMessage_white cm _ (keepAlives_white 3))
+
 end Props.C08
